@@ -525,6 +525,9 @@ impl MediaStreamTrack for SampleStreamTrack {
 
     async fn recv(&self) -> MediaResult<MediaSample> {
         loop {
+            // Created before the checks below: `notify_waiters` (close / stop) stores no permit,
+            // so a notification racing with the checks must already have a `Notified` to wake.
+            let notified = self.notify.notified();
             #[cfg(rustrtc_verif)]
             crate::verif_hooks::media::verif_yield(crate::verif_hooks::media::point::RECV_LOAD_ENDED);
             if self.ended.load(Ordering::SeqCst) {
@@ -535,13 +538,16 @@ impl MediaStreamTrack for SampleStreamTrack {
                 #[cfg(rustrtc_verif)]
                 crate::verif_hooks::media::verif_yield(crate::verif_hooks::media::point::RECV_LOCK_POP);
                 let _pop_guard = self.pop_lock.lock();
+                // Read before `pop`: once closed nothing more is pushed, so an empty queue seen
+                // afterwards is final (reading it after `pop` could miss the last samples).
+                let closed = self.source_closed.load(Ordering::Acquire);
                 if let Some(sample) = self.queue.pop() {
                     return Ok(sample);
                 }
 
                 #[cfg(rustrtc_verif)]
                 crate::verif_hooks::media::verif_yield(crate::verif_hooks::media::point::RECV_LOAD_CLOSED);
-                if self.source_closed.load(Ordering::Acquire) {
+                if closed {
                     #[cfg(rustrtc_verif)]
                     crate::verif_hooks::media::verif_yield(crate::verif_hooks::media::point::RECV_STORE_ENDED);
                     self.ended.store(true, Ordering::SeqCst);
@@ -551,7 +557,7 @@ impl MediaStreamTrack for SampleStreamTrack {
 
             #[cfg(rustrtc_verif)]
             crate::verif_hooks::media::verif_yield(crate::verif_hooks::media::point::RECV_AWAIT);
-            self.notify.notified().await;
+            notified.await;
             #[cfg(rustrtc_verif)]
             crate::verif_hooks::media::verif_yield(crate::verif_hooks::media::point::RECV_LOAD_CLOSED2);
             if self.source_closed.load(Ordering::Acquire) && self.queue.is_empty() {
